@@ -140,9 +140,14 @@ def evaluate_all(w, pts):
     return out
 
 
-def roundtrip(w, mode, tmpdir, version=None):
+def roundtrip(w, mode, tmpdir, version=None, ext=None):
     import asdf
-    af = asdf.AsdfFile({"wcs": w}, version=version) if version is not None else asdf.AsdfFile({"wcs": w})
+    kwa = {}
+    if version is not None:
+        kwa["version"] = version
+    if ext is not None:
+        kwa["extensions"] = [ext]          # write with one particular registered gwcs manifest version
+    af = asdf.AsdfFile({"wcs": w}, **kwa)
     lazy, memmap, where = mode
     if where == "bytes":
         buf = io.BytesIO()
@@ -251,10 +256,14 @@ def run(ctx):
             w.pixel_shape = (11, 21) if n == 2 else (10,)
         pts = [(3.0, 4.0), (7.5, 12.25)] if n == 2 else [(1.5,), (6.0,)]
         versions = [None] if ctx.quick else [None] + [v for v in ("1.5.0", "1.6.0") if v in [str(x) for x in asdf.versioning.supported_versions]]
-        for mode, version in [(m, v) for m in modes for v in (versions if m == modes[0] else [None])]:
-            tag = f"{fname}|{tname}|box={with_box}|{mode}|asdf={version}"
+        combos = [(m, v, None) for m in modes for v in (versions if m == modes[0] else [None])]
+        if not ctx.quick or rng.random() < 0.3:
+            from gwcs.extension import get_extensions
+            combos += [(modes[0], None, e) for e in get_extensions() if getattr(e, "tags", None)]
+        for mode, version, ext in combos:
+            tag = f"{fname}|{tname}|box={with_box}|{mode}|asdf={version}" + (f"|{ext.extension_uri.rsplit('/', 1)[-1]}" if ext is not None else "")
             try:
-                w2, tree_bytes = roundtrip(w, mode, tmpdir, version)
+                w2, tree_bytes = roundtrip(w, mode, tmpdir, version, ext)
             except ReadBackError as e:
                 problems.append((f"{tag}: the file was written but reading it back raised {e}", {"object": tag}, None))
                 continue
